@@ -150,6 +150,24 @@ def _literal_strings(node):
     return []
 
 
+def _register_namedtuple(name, value):
+    """X = collections.namedtuple('X', [...] | 'a b'): remember the field
+    names so that X(a, b).f can be projected to its argument."""
+    if not (isinstance(value, ast.Call) and len(value.args) >= 2 and
+            (dotted_text(value.func) or '').endswith('namedtuple')):
+        return
+    spec = value.args[1]
+    fields = None
+    if isinstance(spec, (ast.List, ast.Tuple)) and all(
+            isinstance(e, ast.Constant) for e in spec.elts):
+        fields = [e.value for e in spec.elts]
+    elif isinstance(spec, ast.Constant) and isinstance(spec.value, str):
+        fields = spec.value.replace(',', ' ').split()
+    if fields:
+        from . import norm
+        norm.NAMEDTUPLES[name] = fields
+
+
 class ModuleInfo(object):
     """One parsed module."""
 
@@ -207,6 +225,7 @@ class ModuleInfo(object):
                 for tgt in stmt.targets:
                     if isinstance(tgt, ast.Name):
                         self.consts[tgt.id] = stmt.value
+                        _register_namedtuple(tgt.id, stmt.value)
             elif isinstance(stmt, ast.AnnAssign) and stmt.value is not None:
                 if isinstance(stmt.target, ast.Name):
                     self.consts[stmt.target.id] = stmt.value
